@@ -50,8 +50,11 @@ OTHER = ['O', 'C', 'L',
          cmd('STAT:OPER:ENAB?', 'K:OPERENQ'), cmd('STAT:QUES:ENAB?', 'K:QUESENQ'), cmd('STAT:QUES:EVEN?', 'K:QUESEVQ')]
 
 
+USERBITS = [1, 2, 16, 256, 0x8000, 0x0300, 0x8013]      # status-byte bits the library does not compute (mask 0xFF13)
+
+
 def alphabet3():
-    ops = []
+    ops = ['T 0 16', 'U 0 16', 'T 0 256', 'U 0 256']
     for r in WRITABLE:
         for v in VALS3:
             ops.append(op_write(r, v, False))
@@ -73,6 +76,12 @@ def random_walk(R, n, full16=True):
             if R.random() < 0.3:
                 v = R.choice([0, 0xFFFF, 0x20, 0x40, 0x60, 0x80, 0x8, 0x4, 1 << R.randrange(16)])
             ops.append(op_write(r, v, R.random() < 0.4))
+        elif k < 0.62:
+            # SCPI_RegSetBits / SCPI_RegClearBits: the application's own bits of the status byte, any bits of the other registers
+            if R.random() < 0.6:
+                ops.append('%s 0 %d' % (R.choice('TU'), R.choice(USERBITS)))
+            else:
+                ops.append('%s %d %d' % (R.choice('TU'), IDX[R.choice(WRITABLE)], R.choice([1 << R.randrange(16), R.getrandbits(16), 0x20, 0x60])))
         elif k < 0.8:
             ops.append('P %d' % R.choice(CODES + [R.randint(-32768, 32767)]))
         else:
